@@ -156,16 +156,25 @@ namespace _fmt_basics {
 		if(negative || always_sign || plus_becomes_space)
 			final_width++;
 
+		auto emit_sign = [&] () {
+			if(negative)
+				sink.append('-');
+			else if(always_sign)
+				sink.append('+');
+			else if(plus_becomes_space)
+				sink.append(' ');
+		};
+
+		// Zero padding goes between the sign and the digits, blank padding before the sign.
+		if(padding == '0')
+			emit_sign();
+
 		if(!left_justify && final_width < width)
 			for(int i = 0; i < width - final_width; i++)
 				sink.append(padding);
 
-		if(negative)
-			sink.append('-');
-		else if(always_sign)
-			sink.append('+');
-		else if(plus_becomes_space)
-			sink.append(' ');
+		if(padding != '0')
+			emit_sign();
 
 		if(k < precision) {
 			for(int i = 0; i < precision - k; i++) {
